@@ -65,6 +65,11 @@ def make_ds(rng, xr, fmt):
         nd = int(rng.choice([4, 8, 12, 24, 36]))
         dd = 360.0 / nd
         th = float(rng.choice([0.0, 5.0])) + dd * np.arange(nd)   # whole degrees
+        if nd >= 8 and rng.random() < 0.25:
+            # a sector of the circle only (a directionally clipped spectrum, a sector instrument): same spacing, fewer bins
+            k0_ = int(rng.integers(0, nd // 2))
+            th = th[k0_: k0_ + int(rng.integers(3, nd // 2 + 1))]
+            nd = len(th)
     order = str(rng.choice(["sorted", "rolled", "reversed"]))
     if order == "rolled":
         th = np.roll(th, int(rng.integers(1, nd)))
@@ -395,6 +400,17 @@ def compare(rec, base, key, ds, back, kinds, opts):
                     mech = "swan-grid-positions-permuted"
                 if base == "octopus" and kind == "tiny":
                     mech = "roundtrip-values:octopus"
+                # finding 40: the bin width is taken from the first two stored labels; on a sector (no circle to fold the step
+                # onto) stored out of order that is not the spacing, and everything written / read through it is scaled
+                d_sorted = np.sort(th % 360.0)
+                true_dd = float(np.min(np.diff(d_sorted))) if len(th) > 1 else 1.0
+                step01 = abs(float(th[1]) - float(th[0])) % 360.0 if len(th) > 1 else 1.0
+                step01 = min(step01, 360.0 - step01)
+                sector = len(th) > 1 and abs(true_dd * len(th) - 360.0) > 1e-6
+                if sector and abs(step01 - true_dd) > 1e-9 and kind != "nan" and np.isfinite(er).all():
+                    r_ = step01 / true_dd
+                    if np.allclose(er, ew * r_, rtol=1e-5, atol=float(np.max(tol))) or np.allclose(er * r_, ew, rtol=1e-5, atol=float(np.max(tol))):
+                        mech = "sector-grid-stored-out-of-order-bin-width-from-first-two-labels"
                 rec.bad(op, key + "|" + kind, {"position": [lon, lat], "time_index": it, "kind": kind, "why": why,
                                               "max_abs_diff": float(np.nanmax(np.abs(er - ew))) if np.isfinite(er - ew).any() else None,
                                               "tolerance": float(np.max(tol)) if kind != "nan" else None, "options": opts,
